@@ -131,12 +131,27 @@ static void *thr(void *a) {
 	return NULL;
 }
 static void on_sig(int s) { (void)s; }
+// dump like dv_dump, but a run of loads of NULL from dg_notify_head by one thread at one site (the spin of
+// os_mpsc_get_head / _dispatch_wait_for_enqueuer) is written once: the model accepts any number of them
+static void c07_dump(FILE *f) {
+	pthread_mutex_lock(&dv_mu);
+	for (dv_thr_t *t = dv_threads; t; t = t->next) {
+		dv_ev_t *prev = NULL;
+		for (size_t i = 0; i < t->n; i++) { dv_ev_t *e = &t->ev[i];
+			if (prev && e->kind == DV_LOAD && prev->kind == DV_LOAD && e->obj == prev->obj && e->off == 8 && prev->off == 8 && e->a == 0 &&
+					e->a == prev->a && e->order == prev->order && e->line == prev->line) continue;
+			prev = e;
+			fprintf(f, "E %d %ld %llu %d %d %d %ld %d %llu %llu %d %d\n", t->idx, t->tid, (unsigned long long)e->seq, e->kind,
+					e->order, e->obj, e->off, e->size, e->a, e->b, e->ok, e->line); }
+	}
+	pthread_mutex_unlock(&dv_mu);
+}
 
 static void stuck_exit(const char *why) {
 	for (int k = 0; k < nthreads; k++) if (!ta[k].done && ta[k].cur_op) printf("STUCK %d %d %d %s\n", cur_round, k, ta[k].cur_op, why);
 	printf("STATE %d %llu tokens=%ld async_pending=%d\n", cur_round, (unsigned long long)(*(volatile uint64_t *)&g->dg_state),
 			atomic_load(&tokens), atomic_load(&async_pending));
-	dv_dump(stdout); fflush(stdout); _exit(0);
+	c07_dump(stdout); fflush(stdout); _exit(0);
 }
 
 int main(int argc, char **argv) {
@@ -197,6 +212,6 @@ int main(int argc, char **argv) {
 		dispatch_release(nq);
 		if ((uint32_t)(*(volatile uint64_t *)&g->dg_state) == 0) dispatch_release(g);
 	}
-	dv_dump(stdout);
+	c07_dump(stdout);
 	return 0;
 }
